@@ -17,6 +17,7 @@ import (
 	"os/user"
 	"runtime"
 	"slices"
+	"strconv"
 	"strings"
 	"sync"
 	"time"
@@ -766,6 +767,19 @@ func (p *ProjectRunner) scaleUpProcess(proc types.ProcessConfig, toAdd, scale, o
 		if err != nil {
 			log.Err(err).Msgf("failed to unmarshal config for %s", proc.Name)
 			return
+		}
+		// ... and with the types the loader gives them, so that a later project update does not
+		// take the replica for a changed one
+		for k, v := range procFromConf.Vars {
+			if n, ok := v.(json.Number); ok {
+				if i, err := strconv.Atoi(n.String()); err == nil {
+					procFromConf.Vars[k] = i
+				} else if strings.ContainsAny(n.String(), ".eE") {
+					if f, err := n.Float64(); err == nil {
+						procFromConf.Vars[k] = f
+					}
+				}
+			}
 		}
 		procFromConf.ReplicaNum = origScale + i
 		procFromConf.Replicas = scale
